@@ -241,7 +241,7 @@ func c18WKT(c *fw.Ctx, idx int) {
 	d := idx % 16
 	g := c18Model(r, d, gen.StdLayouts, true)
 	c.SetInput(map[string]any{"format": "wkt", "digits": d, "geometry": g.String()})
-	t := g.BuildFlat()
+	t := spareStored(c, g, g.BuildFlat())
 	var text string
 	var err error
 	if r.Chance(1, 150) {
@@ -401,7 +401,7 @@ func c18GeoJSON(c *fw.Ctx, idx int) {
 	g := c18Model(r, d, c18JSONLayouts, false)
 	withBBox := !g.IsEmpty() && r.Chance(2, 3)
 	c.SetInput(map[string]any{"format": "geojson", "digits": d, "bbox": withBBox, "geometry": g.String()})
-	t := g.BuildFlat()
+	t := spareStored(c, g, g.BuildFlat())
 	// option values are created once and used for every call of the process (A),
 	// or created for the call (B)
 	if c18DigitsOpts[d] == nil {
